@@ -67,11 +67,12 @@ func (in Input) String() string { return fmt.Sprint(in.E) }
 
 // Cfg is one configuration of Layout.
 type Cfg struct {
-	P1    int     `json:"p1"` // 0 greedy, 1 dfs, 2 greedy with enumerated random picks
-	P2    int     `json:"p2"` // 0 network simplex, 1 longest path
-	P4    int     `json:"p4"` // 0 sink coloring, 1 valign, 2 packright, 3 network simplex, 4 b&k balanced, 5..8 b&k forced 0..3
-	P5    int     `json:"p5"` // 0 noop, 1 straight, 2 polyline, 3 ortho, 4 splines
-	SZ    int     `json:"sz"` // 0 none, 1 fixed 10x6, 2 table (all nodes), 3 table (even nodes), 4 table (even nodes) over fixed, 5 widths from WMask over {2,30} + table heights, 6 widths from WMask base 3 over {2,10,30}
+	P1    int     `json:"p1"`           // 0 greedy, 1 dfs, 2 greedy with enumerated random picks
+	P2    int     `json:"p2"`           // 0 network simplex, 1 longest path
+	P3    int     `json:"p3,omitempty"` // 0 weighted median (the production orderer), 1 no ordering (documented as a testing aid)
+	P4    int     `json:"p4"`           // 0 sink coloring, 1 valign, 2 packright, 3 network simplex, 4 b&k balanced, 5..8 b&k forced 0..3
+	P5    int     `json:"p5"`           // 0 noop, 1 straight, 2 polyline, 3 ortho, 4 splines
+	SZ    int     `json:"sz"`           // 0 none, 1 fixed 10x6, 2 table (all nodes), 3 table (even nodes), 4 table (even nodes) over fixed, 5 widths from WMask over {2,30} + table heights, 6 widths from WMask base 3 over {2,10,30}
 	Rot   int     `json:"rot,omitempty"`
 	WMask int     `json:"wmask,omitempty"`
 	NS    float64 `json:"ns"`
@@ -90,6 +91,9 @@ var p5Names = []string{"noop", "straight", "polyline", "ortho", "splines"}
 
 func (c Cfg) String() string {
 	s := fmt.Sprintf("%s/%s/%s/%s sz%d", p1Names[c.P1], p2Names[c.P2], p4Names[c.P4], p5Names[c.P5], c.SZ)
+	if c.P3 == 1 {
+		s += " no-ordering"
+	}
 	if c.Rot != 0 {
 		s += fmt.Sprintf(" rot%d", c.Rot)
 	}
@@ -177,6 +181,9 @@ func (c Cfg) options(in Input) ([]autog.Option, map[string]graph.Size) {
 		o = append(o, autog.WithLayering(autog.LayeringNetworkSimplex))
 	} else {
 		o = append(o, autog.WithLayering(autog.LayeringLongestPath))
+	}
+	if c.P3 == 1 {
+		o = append(o, autog.WithOrdering(autog.OrderingNoop))
 	}
 	switch {
 	case c.P4 == 0:
